@@ -242,6 +242,9 @@ func checkC12(c *Ctx) {
 	// what is charged for a metric is the size computed for it at allocation: the queue element carries the
 	// handle's size unchanged (no value-dependent discount on the way) - shared with C13 O1
 	c.shared(checkC13, map[string]string{"O1 enqueue-once": "O2 charged-as-sized"})
+	// a message is abandoned half-written only when the transport fails: the generated writers have no
+	// error of their own (shared with C16 O1)
+	c.checkWriteErrorsFromProtocol("O5 write-errors-from-protocol")
 	c.checkOwnResourcePool("O8 own-resource-pool")
 }
 
